@@ -1183,9 +1183,17 @@ class _iterinfo(object):
                         i += 1
                         if self.wdaymask[i] == rr._wkst:
                             break
-                if 1 in rr._byweekno:
-                    # Check week number 1 of next year as well
-                    # TODO: Check -numweeks for next year.
+                # Week number 1 of next year may start in this year: it is
+                # selected by 1 and by minus the number of weeks of next year.
+                nyearweekday = (self.yearweekday+self.yearlen) % 7
+                nno1wkst = (7-nyearweekday+rr._wkst) % 7
+                if nno1wkst >= 4:
+                    nwyearlen = (self.nextyearlen +
+                                 (nyearweekday-rr._wkst) % 7)
+                else:
+                    nwyearlen = self.nextyearlen-nno1wkst
+                nnumweeks = nwyearlen//7+nwyearlen % 7//4
+                if 1 in rr._byweekno or -nnumweeks in rr._byweekno:
                     i = no1wkst+numweeks*7
                     if no1wkst != firstwkst:
                         i -= 7-firstwkst
@@ -1205,15 +1213,15 @@ class _iterinfo(object):
                     # days from last year's last week number in
                     # this year.
                     if -1 not in rr._byweekno:
-                        lyearweekday = datetime.date(year-1, 1, 1).weekday()
-                        lno1wkst = (7-lyearweekday+rr._wkst) % 7
                         lyearlen = 365+calendar.isleap(year-1)
+                        lyearweekday = (self.yearweekday-lyearlen) % 7
+                        lno1wkst = (7-lyearweekday+rr._wkst) % 7
                         if lno1wkst >= 4:
-                            lno1wkst = 0
-                            lnumweeks = 52+(lyearlen +
-                                            (lyearweekday-rr._wkst) % 7) % 7//4
+                            lwyearlen = (lyearlen +
+                                         (lyearweekday-rr._wkst) % 7)
                         else:
-                            lnumweeks = 52+(self.yearlen-no1wkst) % 7//4
+                            lwyearlen = lyearlen-lno1wkst
+                        lnumweeks = lwyearlen//7+lwyearlen % 7//4
                     else:
                         lnumweeks = -1
                     if lnumweeks in rr._byweekno:
